@@ -197,6 +197,12 @@ theorem range_error_names_lower :
 
 /-! ### C05.5 — complete conversations -/
 
+@[simp] theorem fileGone_none (i : Iface) (r : Recipe) (st : Hdrs) : fileGone .none i r st = false := rfl
+@[simp] theorem fileGone_disconnect (k : Nat) (i : Iface) (r : Recipe) (st : Hdrs) :
+    fileGone (.disconnect k) i r st = false := rfl
+@[simp] theorem fileGone_send (k : Nat) (i : Iface) (r : Recipe) (st : Hdrs) :
+    fileGone (.send k) i r st = false := rfl
+
 /-- **C05.5a** WSGI: every well-formed recipe whose content renders and whose producer does not
 raise constructs, and its trace is legal: `start_response` exactly once and first, a status line
 `NNN reason`, legal header pairs, then only yielded bytes. -/
@@ -205,7 +211,7 @@ theorem wsgi_legal (r : Recipe) (h : WF .wsgi r) (hq : Quiet .wsgi r) :
   obtain ⟨st, hc, hm⟩ := construct_ok .wsgi r h
   obtain ⟨p, hp, hqb⟩ := plan_total h hm hq
   have hf := plan_facts h hm hp
-  refine ⟨wsgiCall .none r st, by simp only [wsgiRun, hc], ?_⟩
+  refine ⟨wsgiCall .none r st, by simp [wsgiRun, hc], ?_⟩
   simp only [wsgiCall, hp, withProducerFault]
   refine ⟨statusLine_ok _ (hf.2.1 rfl).1 (hf.2.1 rfl).2, wsgi_headers_ok r st p h hc hp, wsgiBody_quiet _ hqb⟩
 
@@ -218,7 +224,7 @@ theorem asgi_legal (r : Recipe) (h : WF .asgi r) (hq : Quiet .asgi r) :
   obtain ⟨p, hp, hqb⟩ := plan_total h hm hq
   have hf := plan_facts h hm hp
   obtain ⟨hs, hhs, hok⟩ := asgi_headers_ok r st p h hc hp
-  refine ⟨asgiCall .none r st, by simp only [asgiRun, hc], ?_⟩
+  refine ⟨asgiCall .none r st, by simp [asgiRun, hc], ?_⟩
   simp only [asgiCall, hp, withProducerFault, hhs]
   have hbody := hf.2.2 rfl
   cases hb : p.body with
@@ -291,7 +297,12 @@ exception ends the iteration. -/
 theorem wsgi_fault_prefix_legal (r : Recipe) (fault : Fault) (h : WF .wsgi r) :
     ∃ t, wsgiRun fault r = .trace t ∧ PrefixLegalWsgi t := by
   obtain ⟨st, hc, hm⟩ := construct_ok .wsgi r h
-  refine ⟨wsgiCall fault r st, by simp only [wsgiRun, hc], ?_⟩
+  -- the vanished file: the part of the fault-free conversation before the `open`, then the error
+  suffices hcall : ∀ fault, PrefixLegalWsgi (wsgiCall fault r st) by
+    by_cases hg : fileGone fault .wsgi r st = true
+    · exact ⟨goneW (wsgiCall .none r st), by simp only [wsgiRun, hc, hg, if_true], prefixLegalWsgi_gone (hcall .none)⟩
+    · exact ⟨wsgiCall fault r st, by simp only [wsgiRun, hc, hg]; rfl, hcall fault⟩
+  intro fault
   unfold wsgiCall
   cases hp : plan .wsgi r st with
   | error k =>
@@ -334,7 +345,11 @@ empty body is sent only when no exception is on its way. -/
 theorem asgi_fault_prefix_legal (r : Recipe) (fault : Fault) (h : WF .asgi r) :
     ∃ t, asgiRun fault r = .trace t ∧ PrefixLegalAsgi (zcOf r) t := by
   obtain ⟨st, hc, hm⟩ := construct_ok .asgi r h
-  refine ⟨asgiCall fault r st, by simp only [asgiRun, hc], ?_⟩
+  suffices hcall : ∀ fault, PrefixLegalAsgi (zcOf r) (asgiCall fault r st) by
+    by_cases hg : fileGone fault .asgi r st = true
+    · exact ⟨goneA (asgiCall .none r st), by simp only [asgiRun, hc, hg, if_true], prefixLegalAsgi_gone (hcall .none)⟩
+    · exact ⟨asgiCall fault r st, by simp only [asgiRun, hc, hg]; rfl, hcall fault⟩
+  intro fault
   unfold asgiCall
   cases hp : plan .asgi r st with
   | error k => exact ⟨_, legalAsgi_exists _⟩
@@ -364,6 +379,19 @@ theorem asgi_fault_prefix_legal (r : Recipe) (fault : Fault) (h : WF .asgi r) :
       | chunks cs => unfold withProducerFault at hb'; rw [hb] at hb'; cases fault <;> simp [hb] at hb'
       | events evs => unfold withProducerFault at hb'; rw [hb] at hb'; cases fault <;> simp [hb] at hb'
 
+/-- the file that has gone since the response was constructed: on either interface the start, then the error of
+`open` - and nothing else, in particular no second start; a HEAD request or a rejected Range never opens the file -/
+example : (match asgiRun (.producer 0) (exFile false (some exMultiRange)) with
+    | .trace [.start 206 _, .raise k] => k == fileGoneKind
+    | _ => false) = true := by decide +kernel
+
+example : (match wsgiRun (.producer 0) (exFile false none) with
+    | .trace [.startResponse _ _, .raise k] => k == fileGoneKind
+    | _ => false) = true := by decide +kernel
+
+example : asgiRun (.producer 0) (exFile false (some exBadRange)) = asgiRun .none (exFile false (some exBadRange)) := by
+  decide +kernel
+
 /-- **C05.6c** a client disconnect is not an error on ASGI: whenever it is noticed, a quiet
 streaming response still completes its conversation (start, the chunks sent so far, the final
 empty body with `more_body` false) — and the other classes never look at `receive`. -/
@@ -373,7 +401,7 @@ theorem asgi_disconnect_completes (r : Recipe) (k : Nat) (h : WF .asgi r) (hq : 
   obtain ⟨p, hp, hqb⟩ := plan_total h hm hq
   have hf := plan_facts h hm hp
   obtain ⟨hs, hhs, hok⟩ := asgi_headers_ok r st p h hc hp
-  refine ⟨asgiCall (.disconnect k) r st, by simp only [asgiRun, hc], ?_⟩
+  refine ⟨asgiCall (.disconnect k) r st, by simp [asgiRun, hc], ?_⟩
   have hw : withProducerFault (.disconnect k) p = p := by
     unfold withProducerFault; cases p.body <;> rfl
   simp only [asgiCall, hp, hw, hhs]
